@@ -632,8 +632,9 @@ def check_seed(ctx, R):
     poll = None
     for f in scope(cls):
         for n in f.node.body:
-            if isinstance(n, ast.While) and 'self.stopped' in src(n.test):
-                poll = (f, n)
+            if isinstance(n, ast.While) and ('self.stopped' in src(n.test) or any(
+                    isinstance(b_, ast.If) and 'self.stopped' in src(b_.test) for b_ in n.body)):
+                poll = (f, n)       # `while not self.stopped:` or `while True: if self.stopped: break`
     if poll is None:
         raise AnalysisError('FromKafkaBatched: poll loop `while not self.stopped` not found at the top level of a method')
     PF, ploop = poll
